@@ -12,11 +12,11 @@ func init() {
 			ID:    "C10",
 			Title: "Errors carries only genuine failures; overflow is reported and survivable",
 			Explanation: "Who-may-report enumeration with value-origin classification over the SSA of the inotify reader. Every live call of the error-send function is enumerated and the origin of its argument classified; allowed origins are: the error of the read on the inotify file (except os.ErrClosed); an error constructed under the short-read test; ErrEventOverflow under IN_Q_OVERFLOW; the handler's error result, whose non-nil sources are examined edge by edge: a failed inotify_add_watch (recursive mode only, guarded by the watch's recursive flag) and a failed inotify_rm_watch on the clean-up of a renamed watch, which is allowed only if every conjunct of the edge condition excludes both ErrNonExistentWatch and EINVAL (inotify(7): the kernel invalidates a watch when its file is deleted, so EINVAL there is ordinary activity). Any other origin - in particular a freshly constructed error on the event path - is a violation. " +
-				"Also decided: ErrEventOverflow is passed unwrapped or wrapped with %w (errors.Is works), and after a delivered overflow report the reader continues with the same record (C01.4). " +
+				"Also decided: the error-send function is a blocking select over exactly {<-done, Errors<-err} skipped only for a nil error and failing only on done (a reported failure, the overflow report in particular, cannot be dropped by a timeout or default branch - C10.3); ErrEventOverflow is passed unwrapped or wrapped with %w (errors.Is works), and after a delivered overflow report the reader continues with the same record (C01.4). " +
 				"Not decided: whether and how often overflow happens; all speeds.",
 			Rule:        "one obligation per error-send call site and, for the handler's error result, per non-nil source edge; non-trivial = site reachable in production configuration",
 			Assumptions: []string{"go/types + go/ssa", "inotify(7): inotify_rm_watch fails with EINVAL for a watch the kernel already removed"},
-			MinObl:      5,
+			MinObl:      7,
 		},
 		Configs: tiered(linuxQuick, linuxAll),
 		Run:     runC10,
@@ -67,6 +67,7 @@ func runC10(p *Program, e *Engine, r *Result, tier string) {
 		a.R.fail("no error-send call found (vacuous)")
 	}
 	c01Overflow(a, df, "C10.2")
+	c10Send(a, "C10.3")
 }
 
 // errIsExcludes: every conjunct of cond has a literal !errors.Is(x, target) whose x can be the value of edge e.
